@@ -14,7 +14,10 @@ package storage
 //@   requires lock_free_on_entry: !held(mu) && !rheld(mu)
 //@   lockcheck
 //@   modifies global:storage
+// wait blocks until SetGlobal has closed the ready channel, and SetGlobal needs
+// the write lock for that: whoever waits must not hold the mutex in any mode.
 //@ func wait
+//@   requires lock_free_on_entry: !held(mu) && !rheld(mu)
 //@   trusted
 //@   modifies global:storage
 //@   ensures storage != nil
